@@ -222,6 +222,37 @@ def placeholder_tables(ck):
                         if const_str(y) is not None:
                             kws.add(const_str(y))
         ck.ob("C12-O2", sitestr(tt), docs["time"] <= kws, "time keywords %s are handled" % sorted(docs["time"]) if docs["time"] <= kws else "documented time keywords not handled: %s" % sorted(docs["time"] - kws), key="TimeToken|keywords")
+        # "time process" = seconds since process start: the reference point the message's steady time is measured from is fixed when the program (the
+        # library) is loaded - a namespace-scope object initialised from the clock - not whenever the first formatter / first message happens to need it
+        ck.rule("C12-O8", "%{time process}: the reference point subtracted from the message's steady time is a namespace-scope object initialised from the clock at load time, not a function-local static initialised on first use")
+        subs = []
+        for x in tt.all_nodes():
+            a_ = None
+            if x.get("k") == "call" and x.get("ck") == "operator" and x.get("op") == "-" and len(x.get("args", [])) == 2:
+                a_ = x["args"]
+            elif x.get("k") == "binop" and x.get("op") == "-":
+                a_ = [x.get("lhs"), x.get("rhs")]
+            if a_ and is_call(deref_local(tt, a_[0]), "QtLogger::LogMessage::steadyTime"):
+                subs.append((x, skip_copies(deref_local(tt, a_[1]))))
+        gdecl = {gv["decl"]: gv for gv in F.globals.values()}
+        for x, r in subs:
+            if isinstance(r, dict) and r.get("k") == "ref" and r.get("decl") in gdecl:
+                gv = gdecl[r["decl"]]
+                ck.ob("C12-O8", sitestr(tt, x), not gv.get("staticlocal"), "%s is a namespace-scope object (initialised when the program is loaded)" % gv.get("name") if not gv.get("staticlocal") else
+                      "%s is a function-local static: it is initialised on first use, so the time printed counts from that moment" % gv.get("name"), key="TimeToken|process-reference")
+            elif isinstance(r, dict) and r.get("k") == "call" and F.fns.get(r.get("fn")) is not None and F.fns[r["fn"]].body is not None:
+                h = F.fns[r["fn"]]
+                rets = [skip_copies(deref_local(h, y.get("e"))) for y in returns(h)]
+                lazy = [y for y in rets if isinstance(y, dict) and y.get("k") == "ref" and (gdecl.get(y.get("decl")) or {}).get("staticlocal")]
+                eager = [y for y in rets if isinstance(y, dict) and y.get("k") == "ref" and y.get("decl") in gdecl and not gdecl[y["decl"]].get("staticlocal")]
+                if lazy:
+                    ck.ob("C12-O8", sitestr(tt, x), False, "the reference point of %%{time process} is the function-local static of %s(): it is initialised on first use (when the first formatter with this placeholder is set up, "
+                          "or the first message is formatted), so the time printed counts from that moment and a message older than it gets a negative time - the documented value is seconds since process start" % strip_tmpl(h.name).split("::")[-1],
+                          key="TimeToken|process-reference")
+                elif eager and len(eager) == len(rets):
+                    ck.ob("C12-O8", sitestr(tt, x), True, "the reference point comes from a namespace-scope object", key="TimeToken|process-reference")
+                else:
+                    ck.ob("C12-O8", sitestr(tt, x), None if not (is_call(r, ("std::chrono::steady_clock::time_point::time_since_epoch", "time_since_epoch"))) else True, "reference point %s" % describe(r)[:40], key="TimeToken|process-reference")
     # %% escape: an append of '%' whose position advance is 2
     g = Graph(pp)
     pct = [n for n in pp.calls() if n.get("ck") == "member" and name_is(n.get("callee"), ("append", "operator+=")) and n.get("args") and (const_str(n["args"][0]) == "%" or const_int(n["args"][0]) == 37)]
